@@ -8,3 +8,7 @@ CONSTANTS
   AtomicSend = FALSE
   TickFix = TRUE
   SwallowAllowed = TRUE
+  Seek <- SeekNone
+  CollOf <- CollOf3
+  JoinLifts = TRUE
+  StartAllFirst = FALSE
